@@ -10,6 +10,10 @@ from vlib import env, genclasses
 from vlib.cassettes import open_box
 from vlib.values import InterruptLike
 
+class _StudioFailed(Exception):
+    pass
+
+
 PROPERTY = 'C19'
 LEVEL = 'exploration'
 RULE = ('seeded studios: 2-5 categories drawn from Op / OpX / Op_x / Op_x_y / A / B (prefixes of each other, underscores), 0-6 recordings each (some '
@@ -146,6 +150,10 @@ def run_studio(ctx, seed):
                 journal = state['journal']
                 journal.append(('tuning', category, None, None))
                 if category in state['failing']:
+                    if seed % 3 == 1:
+                        # the tuner fetches a reference recording for the category and does not find it: an exception of the framework's family
+                        from playback.exceptions import NoSuchRecording
+                        raise NoSuchRecording('reference-recording-of-' + category)
                     raise RuntimeError('no tuning for ' + category)
 
                 def playback_function(recording):
@@ -198,7 +206,12 @@ def run_studio(ctx, seed):
             """One play() of the SAME studio object (a regression job keeps its studio and plays it again and again)."""
             state['journal'] = journal = []
             state['failing'] = set(failing_now)
-            res = studio.play()
+            try:
+                res = studio.play()
+            except Exception as ex:
+                ctx.violation('studio.play() raised %s: a category whose tuning cannot be created yields that error for that category alone' % type(ex).__name__,
+                              dict(w, failing_now=sorted(failing_now)))
+                raise env.EnoughViolations() if len(ctx.violations) > 20 else _StudioFailed()
             out = {c: ([] if not isinstance(g, Exception) else g) for c, g in res.items()}
             gens = {c: iter(g) for c, g in res.items() if not isinstance(g, Exception)}
             crng = random.Random(seed + 2)
@@ -343,7 +356,10 @@ def run(ctx):
     n = ctx.budget(200, 8000)
     base = ctx.seed * 1000003 + ctx.shard * 1000000
     for i in range(n):
-        run_studio(ctx, base + i)
+        try:
+            run_studio(ctx, base + i)
+        except _StudioFailed:
+            pass            # (already reported)
     ctx.sample({'categories': ['Op', 'OpX', 'A'], 'counts': {'Op': 2, 'OpX': 3, 'A': 0}, 'explicit': False, 'failing': ['OpX'],
                 'expected': 'Op: its 2 complete recordings; OpX: the tuner error; A: empty'})
     if not ctx.counters.get('comparisons_checked'):
@@ -351,4 +367,7 @@ def run(ctx):
 
 
 def replay(ctx, w):
-    run_studio(ctx, w['seed'])
+    try:
+        run_studio(ctx, w['seed'])
+    except _StudioFailed:
+        pass
